@@ -19,8 +19,9 @@ def ref_last(version, conn_value):
         return not (conn_value is not None and "keep-alive" in v)
     return False
 
-def req_body_bytes(c, m, n):
-    pat = ("B%d.%d|" % (c, m)).encode()
+def req_body_bytes(c, m, n, text=False):
+    # (text: lines of words, as a form or a text upload would have -- read as a head they are malformed)
+    pat = (("B%d.%d|" if not text else "B%d.%d a b\r\n") % (c, m)).encode()
     return bytes(pat[i % len(pat)] for i in range(n))
 
 def chunk_encode(body, sizes, hexcase="lower", lead0=0, ext=""):
@@ -47,7 +48,7 @@ class Msg:
     def __init__(self, method="GET", version="1.1", headers=None, body_len=0, framing="none",
                  chunks=None, chunk_opts=None, expect=None, conn=None, cls="ok", why="C10", raw_head=None,
                  plan=None, target_suffix="", extra_headers=None, cl_name="Content-Length",
-                 te_name="Transfer-Encoding", both=False, upgrade_tail=0, te_first=False, te_value="chunked"):
+                 te_name="Transfer-Encoding", both=False, upgrade_tail=0, te_first=False, te_value="chunked", body_text=False):
         self.method = method
         self.version = version
         self.headers = headers  # explicit list of (name, value) or None for default
@@ -69,11 +70,12 @@ class Msg:
         self.both = both
         self.te_first = te_first      # with both framing headers: Transfer-Encoding comes before Content-Length
         self.upgrade_tail = upgrade_tail
+        self.body_text = body_text
         self.hsep = ": "              # between a header's name and its raw value on the wire
 
     def build(self, c, m):
         url = "/c%dm%d%s" % (c, m, self.target_suffix)
-        body = req_body_bytes(c, m, self.body_len)
+        body = req_body_bytes(c, m, self.body_len, self.body_text)
         hdrs = []
         if self.headers is not None:
             hdrs = list(self.headers)
